@@ -17,6 +17,20 @@ func (p path) appendIndex(o jsonObject, metadata []Metadata) path {
 	}
 	p = append(p, meta)
 	// Append index.
+	if sk != nil && len(o) > 0 {
+		// Identify the object by its set keys only, so that the
+		// path still finds it after another hunk has changed one
+		// of its other fields.
+		id := make(jsonObject)
+		for k := range sk.keys {
+			if v, ok := o[k]; ok {
+				id[k] = v
+			}
+		}
+		if len(id) > 0 {
+			o = id
+		}
+	}
 	return append(p, o)
 }
 
